@@ -18,6 +18,11 @@ UNLOCK = {'pthread_mutex_unlock'}
 REINIT = {'pthread_mutex_init'}
 
 
+OTHER_LOCKS = {'flock', 'lockf', 'lockf64', 'sem_wait', 'sem_timedwait', 'pthread_rwlock_rdlock', 'pthread_rwlock_wrlock',
+               'pthread_spin_lock', 'pthread_cond_wait', 'pthread_cond_timedwait', 'flockfile'}
+FCNTL_LOCK_CMDS = {6, 7, 37, 38}     # F_SETLK, F_SETLKW, F_OFD_SETLK, F_OFD_SETLKW (Linux)
+
+
 def mutex_of(call):
     """name of the global whose address is the first argument, or rendered text."""
     a = strip(call.ch[1]) if len(call.ch) > 1 else None
@@ -65,6 +70,8 @@ def run(ctx):
     chk.rule('FK2', 'every mutex acquired on the exec path is covered by a pthread_atfork registration: prepare '
                     'acquires it, parent releases it, child releases or re-initialises it', floor=1)
     chk.rule('FK3', 'the registration is in force before the first acquisition and is made once per process', floor=0)
+    chk.rule('FK4', 'no lock of a kind the fork handlers cannot release in the child (file locks on inherited descriptors, '
+                    'semaphores, rwlocks, spinlocks, condition waits) is taken on the exec path', floor=1)
     chk.explanation = (
         'Pure protocol property: schedules are quantified away. If some thread can hold the mutex at the instant of '
         'fork() the child inherits a locked mutex that no thread of the child will ever release, and its first '
@@ -89,6 +96,24 @@ def run(ctx):
                         raise AnalysisBroken('lock on a non-global object at %s: %s' % (c.where(), render(c)))
                     locks.setdefault(m, []).append((f, c))
         chk.count('lock_sites', sum(len(v) for v in locks.values()))
+        # FK4: lock kinds the fork handlers cannot cover.  A lock on an open file description
+        # (flock / lockf / F_SETLK*) is shared with every fork child that inherits the descriptor: a child
+        # forked while another thread holds it keeps it alive after that thread's close(); semaphores,
+        # rwlocks, spinlocks and condition waits are copied in their locked state like a mutex.
+        foreign = []
+        for key, (f, _, _) in reach.items():
+            for c in f.calls():
+                if c.get('callee') in OTHER_LOCKS:
+                    foreign.append((f, c))
+                if c.get('callee') in ('fcntl', 'fcntl64') and len(c.ch) > 2 and strip(c.ch[2]).get('v') in FCNTL_LOCK_CMDS:
+                    foreign.append((f, c))
+        for f, c in foreign:
+            chk.ob('FK4', 'uncovered-lock[%s:%s]' % (f.name, c['callee']), False, c.where(), f.name,
+                   '%s takes a lock that no fork handler releases in the child: a child forked from another thread while it '
+                   'is held inherits it (an flock()/lockf() lock even stays held through the inherited descriptor after the '
+                   'parent thread closed its own), and the child\'s first wrapped exec blocks on it forever' % render(c)[:60])
+        chk.ob('FK4', 'only-mutexes-are-held', not foreign, '', '', '%d other lock site(s)' % len(foreign),
+               how='no flock/lockf/fcntl lock, semaphore, rwlock, spinlock or condition wait reachable from execv/execve')
         special = owner_checked_mutexes(prog, reach)
         regs = []
         for key, (f, _, _) in reach.items():
